@@ -38,6 +38,9 @@ def tree(rng: random.Random, max_entries=14, max_depth=5, links=True, small_alph
             rng.randint(0, 4102444800) * 10**9 + rng.randint(0, 9999999) * 100,   # 1970..2100, 100ns grid
             rng.randint(1_000_000_000, 1_900_000_000) * 10**9 + rng.randint(0, 999_999_999),
             rng.randint(0, 4102444800) * 10**9,
+            # the ends of the quantifier's range and other boundary instants
+            rng.choice([0, 100, 1000, 999_999_900, 10**9, 4102444800 * 10**9, 4102444800 * 10**9 - 100, 2**31 * 10**9, (2**31 - 1) * 10**9 + 999_999_900, 2**32 * 10**9,
+                        86400 * 10**9, 951782400 * 10**9, 1_000_000_000 * 10**9]),
         ])
         if r < 0.3 and depth[parent] < max_depth - 1:
             entries.append({"path": p, "kind": "dir", "mode": rng.choice([0o755, 0o700, 0o500, 0o555, 0o775, 0o777, 0o750]) if modes else 0o755, "mtime_ns": mt})
